@@ -164,6 +164,11 @@ int c_crps(int nval,int ncol,
 		}
 	}
 
+	/* The outlier frequencies are sums of weights: rounding can push them
+     * above 1, which makes the potential CRPS negative */
+	if(o[0]>1.0) o[0] = 1.0;
+	if(o[ncol]>1.0) o[ncol] = 1.0;
+
 	/* Computation of the oi, gi, Reli_i and crps_potential_i
      * from the ai and bi (Eq 30, 31, 33, 36 and 37) */
 	for(j=0;j<ncol+1;j++)
